@@ -82,6 +82,7 @@ type interpreter struct {
 	prog               *ssa.Program           // the SSA program
 	globals            map[*ssa.Global]*value // addresses of global variables (immutable)
 	stubs              map[string]externalFn  // per-entry stubs, by SSA function name
+	stubFns            map[string]*ssa.Function
 	mode               Mode                   // interpreter options
 	reflectPackage     *ssa.Package           // the fake reflect package
 	errorMethods       methodSet              // the method set of reflect.error, which implements the error interface.
@@ -131,6 +132,7 @@ type fnInfo struct {
 	name     string
 	ext      externalFn
 	symExt   externalFn
+	stub     *ssa.Function
 	skipInit bool
 	pkgInit  bool
 	calls    int
@@ -144,9 +146,7 @@ func (i *interpreter) info(fn *ssa.Function) *fnInfo {
 	if fn.Parent() == nil {
 		fi.ext = externals[fi.name]
 		fi.symExt = symExternals[fi.name]
-		if st := i.stubs[fi.name]; st != nil {
-			fi.ext = st
-		}
+		fi.stub = i.stubFns[fi.name]
 	}
 	if fn.Name() == "init" && fn.Pkg != nil && fn.Signature.Recv() == nil && fn.Parent() == nil && i.skipInit[fn.Pkg.Pkg.Path()] {
 		fi.skipInit = true
@@ -607,6 +607,10 @@ func callSSA(i *interpreter, caller *frame, callpos token.Pos, fn *ssa.Function,
 		i:      i,
 		caller: caller, // for panic/recover
 		fn:     fn,
+	}
+	if fi.stub != nil && !(caller != nil && caller.fn == fi.stub) {
+		// harness stub; a call from inside the stub itself reaches the real function
+		return call(i, caller, callpos, fi.stub, args)
 	}
 	if fn.Parent() == nil {
 		if fi.symExt != nil && anySym(args) {
